@@ -18,6 +18,7 @@ import facts
 
 CATALOGUE_DIR = os.path.join(facts.VERIF, 'selftest')
 SEEDED_DIR = os.path.join(facts.VERIF, 'seeded')
+BENIGN_DIR = os.path.join(facts.VERIF, 'benign')
 
 
 def load_catalogue():
@@ -109,7 +110,9 @@ def run_one(job):
             hit = [k for k in bad if (exp is None or exp in k)]
             res['status'] = 'caught' if hit else ('caught-elsewhere' if bad else 'MISSED')
         else:
-            res['status'] = 'silent' if not bad else 'FALSE-ALARM'
+            res['status'] = 'silent' if not bad else ('known-limit' if entry.get('known_limit') else 'FALSE-ALARM')
+            if entry.get('known_limit'):
+                res['limit'] = entry['known_limit']
         return res
     finally:
         res['wall_s'] = round(time.time() - t0, 1)
@@ -134,10 +137,35 @@ def entries_for(prop):
                 meta = json.load(open(mp))
                 if meta.get('property') == prop or prop in meta.get('also_checked_by', []):
                     out.append({'name': 'seeded/' + sid, 'property': prop, 'role': 'mutant', 'expect': None, 'edit': {'kind': 'patch', 'path': pp}})
+    # behaviour-preserving edits written by independent sub-agents (benign/<round>/<id>/patch.diff): those that touch a file
+    # the property is anchored in must leave the property's check silent (except the declared limits of benign/INDEX.json)
+    if os.path.isdir(BENIGN_DIR):
+        import re
+        try:
+            limits = json.load(open(os.path.join(BENIGN_DIR, 'INDEX.json'))).get('known_limit', {})
+        except (IOError, ValueError):
+            limits = {}
+        files = set()
+        for line in open(os.path.join(facts.VERIF, 'properties.jsonl')):
+            rec = json.loads(line)
+            if rec['id'] == prop:
+                files = set(rec.get('anchors', {}).get('files', []))
+        for rnd in sorted(os.listdir(BENIGN_DIR)):
+            rd = os.path.join(BENIGN_DIR, rnd)
+            if not os.path.isdir(rd):
+                continue
+            for bid in sorted(os.listdir(rd)):
+                pp = os.path.join(rd, bid, 'patch.diff')
+                if not os.path.exists(pp):
+                    continue
+                touched = set(re.findall(r'^\+\+\+ b/(\S+)', open(pp).read(), re.M))
+                if touched & files:
+                    out.append({'name': 'benign/%s/%s' % (rnd, bid), 'property': prop, 'role': 'benign', 'edit': {'kind': 'patch', 'path': pp},
+                                'known_limit': limits.get('%s/%s' % (rnd, bid))})
     return out
 
 
-def run_for(prop, mod=None, jobs=8):
+def run_for(prop, mod=None, jobs=12):
     es = entries_for(prop)
     if not es:
         return {'mutants': 0, 'benign': 0, 'results': []}
@@ -150,6 +178,7 @@ def run_for(prop, mod=None, jobs=8):
         'missed': [r['name'] for r in results if r['status'] == 'MISSED'],
         'benign': len([r for r in results if r['kind'] == 'benign']),
         'false_alarms': [r['name'] for r in results if r['status'] == 'FALSE-ALARM'],
+        'known_limits': [r['name'] for r in results if r['status'] == 'known-limit'],
         'skipped': [r['name'] for r in results if r['status'] in ('skipped', 'does-not-compile')],
         'results': results,
     }
@@ -158,8 +187,9 @@ def run_for(prop, mod=None, jobs=8):
             print('SELFTEST-MISS property=%s mutant=%s (weakness of the checker, not a violation of amiquip)' % (prop, r['name']))
         if r['status'] == 'FALSE-ALARM':
             print('SELFTEST-FALSE-ALARM property=%s benign-edit=%s fired=%s' % (prop, r['name'], r.get('violated')))
-    print('selftest %s: %d/%d mutants caught, %d benign edits silent of %d, %d skipped' % (
-        prop, summary['caught'], summary['mutants'], summary['benign'] - len(summary['false_alarms']), summary['benign'], len(summary['skipped'])))
+    print('selftest %s: %d/%d mutants caught, %d benign edits silent of %d (%d declared limits), %d skipped' % (
+        prop, summary['caught'], summary['mutants'], summary['benign'] - len(summary['false_alarms']) - len(summary['known_limits']), summary['benign'],
+        len(summary['known_limits']), len(summary['skipped'])))
     return summary
 
 
